@@ -758,7 +758,7 @@ func oracle(c *hc.Ctx, d *Doc, svg string, p Parsed) {
 			dirDist(recSubs, specSubs, "rendered outline")
 		}
 		if worst > tol {
-			feat := firstFeature(d, "viewbox-origin", "skew", "rx-ry")
+			feat := firstFeature(d, "viewbox-min-ge-size", "skew", "viewbox-origin", "rx-ry")
 			if feat == ":rx-ry" && s.N.Tag != "rect" {
 				feat = ""
 			}
